@@ -28,7 +28,10 @@ def known_words():
             for f in sorted(os.listdir(d)):
                 if f.endswith((".py", ".json")) and f != "inline.py":
                     with open(os.path.join(d, f)) as fh:
-                        words.update(re.findall(r"[A-Za-z_][A-Za-z0-9_]*", fh.read()))
+                        text = fh.read()
+                    # rule identifiers ("R6.terminal_score", "I4w.joins_writer") are names of obligations, not of functions
+                    text = re.sub(r"\b[A-Z][A-Za-z0-9]{0,3}\.[a-z][a-z_0-9]*", " ", text)
+                    words.update(re.findall(r"[A-Za-z_][A-Za-z0-9_]*", text))
         _vocab = words
     return _vocab
 
